@@ -8,6 +8,9 @@ canary computation on the same scheduler must give the same outcome and the same
 trace as on a fresh scheduler (with the service's still-pending requests carried over or
 cancelled, as a real batching service would)."""
 import copy
+import json
+import random
+import zlib
 
 from ._prog import ProgProp
 from .. import gen, real
@@ -91,6 +94,31 @@ def _shift_calls(steps):
     return steps
 
 
+def _ext_reset_motif(rng):
+    """A task object built at top level, asynq.scheduler.reset(), then a computation that
+    evaluates that task synchronously from inside one of its tasks (and goes on)."""
+    def items(m):
+        return [["y", ["item", rng.randint(0, 2), rng.randint(0, 5)]] for _ in range(m)]
+    use = [["s", ["ref", 0], "value"]] if rng.random() < 0.7 else [["y", ["ref", 0]]]
+    root = items(rng.randint(0, 1)) + use + items(rng.randint(0, 2))
+    ext = items(rng.randint(0, 2))
+    if rng.random() < 0.5:
+        ext = ext + [["y", ["call", 2, []]]]
+    if rng.random() < 0.4:
+        ext = [["with", ["ctx"], ext]]
+    templates = [{"kind": "fn", "steps": root}, {"kind": "fn", "steps": ext}, {"kind": "fn", "steps": items(rng.randint(0, 1))}]
+    return {"templates": templates, "root": {"tmpl": 0, "conv": rng.choice(["call", "value", "wrapped"])}, "kinds": 3, "svs": 2,
+            "yield_only": False, "reentry": True, "faults": {"items": {}, "flushes": {}, "ctx": {}}, "prio": gen.gen_prio(rng, 3),
+            "ext_tasks": [1], "reset_after_ext": rng.random() < 0.8}
+
+
+def _insert_opt_toggle(rng, spec):
+    """User code switches a debug option on in the middle of a task step."""
+    t = rng.choice(spec["templates"])
+    opt = rng.choice(["COLLECT_PERF_STATS", "COLLECT_PERF_STATS", "KEEP_DEPENDENCIES", "DUMP_NEW_TASKS", "ENABLE_COMPLEX_ASSERTIONS"])
+    t["steps"].insert(rng.randint(0, len(t["steps"])), ["opt", opt, opt != "ENABLE_COMPLEX_ASSERTIONS"])
+
+
 class C08(ProgProp):
     id = "C08"
     report = ("C08",)
@@ -117,11 +145,17 @@ class C08(ProgProp):
             if r1 < 0.28:
                 spec = _ctx_motif(rng)
                 f = spec["faults"]
+            elif r1 < 0.34:
+                spec = _ext_reset_motif(rng)
+                f = spec["faults"]
             elif rng.random() < 0.35:
                 for _ in range(rng.randint(1, 2)):
                     f["ctx"]["#%d" % rng.randint(1, 6)] = [rng.choice(["resume", "pause"]), rng.randint(1, 3)]
             if rng.random() < 0.2:
                 f["callbacks"] = {"#%d" % rng.randint(1, 8): True}
+                d = zlib.crc32(json.dumps(spec["templates"], sort_keys=True).encode())
+                if d % 3 == 0:
+                    f["callbacks"] = {k_: "base" for k_ in f["callbacks"]}  # a BaseException, not an Exception
             if rng.random() < 0.1:
                 f["prio_raises"] = rng.randint(1, 6)
             if rng.random() < 0.1:
@@ -132,6 +166,9 @@ class C08(ProgProp):
                 spec["max_stack"] = rng.randint(3, 40)
             if rng.random() < 0.15:
                 spec["options"] = {o: not real.DEFAULT_OPTIONS[o] for o in real.BOOL_OPTIONS if rng.random() < 0.3}
+            d2 = zlib.crc32(json.dumps(spec["templates"], sort_keys=True).encode())
+            if d2 % 8 == 1:
+                _insert_opt_toggle(random.Random(d2), spec)
             hist.append(spec)
         return {"history": hist, "canary": _canary(rng), "persist": [rng.random() < 0.5 for _ in range(n)]}
 
@@ -164,7 +201,10 @@ class C08(ProgProp):
             for (p, c, m, n) in B.violations:
                 if p == "C08":
                     out.append((c, "computation #%d (%s): %s" % (i + 1, otxt[1] if otxt[0] == "E" else "value", m)))
-            if o[0] == "E" and getattr(B, "root_computed", False) and B.root_error is None and s["root"].get("conv") != "wrapped":
+            if o[0] == "E" and getattr(B, "root_computed", False) and B.root_error is None and s["root"].get("conv") != "wrapped" \
+                    and not str(getattr(o[1], "tag", "")).startswith("cb:"):
+                # (a completion subscriber of the root task that raises is user code failing
+                # after the task has completed: its exception is what the caller gets)
                 out.append(("internal-error", "computation #%d: the outermost call raised %s although the awaited task completed with a value" % (i + 1, otxt[1])))
             if spec.get("expect") == "value":
                 if o[0] != "V":
